@@ -38,12 +38,13 @@ Fixpoint admissible (ws : nat -> wresp) (k : nat) (pkts : list (list byte)) : Pr
 Definition held (fd : nat) (t : list event) : Prop :=
   count_ev (opens_of fd) t = S (count_ev (closes_of fd) t).
 
-(* ---- C16: the error number of a failing pwrite ----
-   [o] and [o'] are the same operating-system state (descriptor table, files, create script, counters, log) under two
-   write scripts that fail the same calls -- transiently or persistently -- with possibly different error numbers
-   (Pwrite.errno_variant: EIO / ENOSPC / EAGAIN / EINTR / EBADF) *)
+(* ---- C16: the error number of a failing pwrite / ftruncate ----
+   [o] and [o'] are the same operating-system state (descriptor table, files, counters, log) under two write scripts
+   that fail the same pwrite calls -- transiently or persistently -- and two create scripts that fail the same
+   open / flock / ftruncate calls, with possibly different error numbers
+   (Pwrite.errno_variant, FdTable.cerrno_variant: EIO / ENOSPC / EAGAIN / EINTR / EBADF / EINVAL) *)
 Definition os_ev (o o' : os) : Prop :=
-  tbl o' = tbl o /\ fs o' = fs o /\ cscr o' = cscr o /\ errno_variant (wscr o) (wscr o') /\
+  tbl o' = tbl o /\ fs o' = fs o /\ cerrno_variant (cscr o) (cscr o') /\ errno_variant (wscr o) (wscr o') /\
   nopen o' = nopen o /\ nwrite o' = nwrite o /\ nfail o' = nfail o /\ keep o' = keep o /\ envs o' = envs o /\
   trace o' = trace o.
 
